@@ -469,7 +469,7 @@ def replay(ctx, path):
         s["seed"] = sc.get("seed", 0)
         scheds.append(s)
     binp = ctx.go_build_test("blockchain/v0", HARNESS)
-    rows, crashed = run_harness(ctx, binp, "replay", rep["vals"], scheds, 6)
+    rows, crashed = run_harness(ctx, binp, "replay", rep["vals"], scheds, 6, tmax=CHURN_TMAX)
     verdict = core.Verdict(ctx)
     stats = new_stats()
     v = collect(ctx, verdict, "replay", rep["vals"], scheds, rows, stats) if rows else {"viol": []}
